@@ -53,6 +53,23 @@ func (f *Filter) WriteMappingTo(w io.Writer) error {
 	return f.m.WriteTo(w)
 }
 
+// utf16Len returns the number of UTF-16 code units that the UTF-8 text b occupies in a JavaScript source, which
+// is the unit of a generated column. Continuation bytes count for nothing, so the result does not depend on how a
+// multi-byte sequence is split over calls of Write.
+func utf16Len(b []byte) int {
+	n := 0
+	for _, c := range b {
+		switch {
+		case c&0xC0 == 0x80: // continuation byte
+		case c >= 0xF0: // first byte of a sequence outside the basic plane: a surrogate pair
+			n += 2
+		default:
+			n++
+		}
+	}
+	return n
+}
+
 func (f *Filter) Write(p []byte) (n int, err error) {
 	var n2 int
 	for {
@@ -67,7 +84,7 @@ func (f *Filter) Write(p []byte) (n int, err error) {
 		for {
 			i := bytes.IndexByte(w, '\n')
 			if i == -1 {
-				f.column += len(w)
+				f.column += utf16Len(w)
 				break
 			}
 			f.line++
